@@ -185,7 +185,7 @@ fn sparse_random(ctx: &mut Ctx) {
                 if m.next >= m.universe { return m.universe; }
                 let room = m.universe - m.next;
                 let left = std::cmp::max(1, m.capacity.saturating_sub(m.values.len()));
-                m.next + rng.below(std::cmp::max(1, std::cmp::min(room, room / left + 2)))
+                m.next + rng.below(std::cmp::max(1, std::cmp::min(room, (room / left).saturating_add(2))))
             };
             let invalid_value = |rng: &mut Rng, m: &SModel| -> usize {
                 match rng.below(4) { 0 => m.universe, 1 => m.universe.saturating_add(rng.below(5)), 2 => if m.next > 0 { rng.below(m.next) } else { m.universe }, _ => usize::MAX }
